@@ -1607,8 +1607,9 @@ namespace Clipper2Lib {
     outrec->pts = prevOp;
 
     Point64 ip;
-    GetSegmentIntersectPt(prevOp->pt, splitOp->pt,
-      splitOp->next->pt, nextNextOp->pt, ip);
+    if (!GetSegmentIntersectPt(prevOp->pt, splitOp->pt,
+      splitOp->next->pt, nextNextOp->pt, ip))
+        ip = splitOp->pt; // (numerically) parallel segments
 
 #ifdef USINGZ
     if (zCallback_) zCallback_(prevOp->pt, splitOp->pt,
